@@ -136,7 +136,13 @@ Principal(fn) ==
       res |-> GoText(Rename(order, r)),
       \* which parameters are fully determined by the body (an annotation with that type is redundant), and the type to write
       ground |-> [i \in 1..Len(ps) |-> Vars(ps[i]) = <<>>],
-      annot |-> [i \in 1..Len(ps) |-> IF Vars(ps[i]) = <<>> THEN JoinStr(PMin(ps[i], 2), "") ELSE ""]]
+      annot |-> [i \in 1..Len(ps) |-> IF Vars(ps[i]) = <<>> THEN JoinStr(PMin(ps[i], 2), "") ELSE ""],
+      \* an INFORMATIVE result annotation: the principal result type with its variables instantiated (int / string in turn); the
+      \* function written with ": text" after its parameters has the constraint problem of fn plus the equation ret = t
+      rinst |-> LET vs == Dedup(Vars(r), {})
+                    g == [x \in {vs[k] : k \in 1..Len(vs)} |-> IF (IdxOf(vs, x) + Len(fn.eqs)) % 2 = 0 THEN B("int") ELSE B("string")]
+                IN IF u.ok /\ vs # <<>> THEN [has |-> TRUE, t |-> Apply(g, r), text |-> JoinStr(PMin(Apply(g, r), 2), "")]
+                   ELSE [has |-> FALSE, t |-> Unit, text |-> ""]]
 
 ---------------------------------------------------------------------------
 (* Part 1: the nondeterministic machine *)
